@@ -142,7 +142,11 @@ func TypedProto(p schema.TypedPrototype, level int) datamodel.NodePrototype {
 
 // Feed offers the events to the builder through the chosen route and reports acceptance.
 func Feed(np datamodel.NodePrototype, events val.V, via string, prog []byte) (n datamodel.Node, accepted bool, applicable bool, err error) {
-	nb := np.NewBuilder()
+	return FeedInto(np.NewBuilder(), fmt.Sprintf("%T", np), events, via, prog)
+}
+
+// FeedInto is Feed with a builder supplied by the caller (a fresh one, or one that was Reset after earlier use).
+func FeedInto(nb datamodel.NodeBuilder, npName string, events val.V, via string, prog []byte) (n datamodel.Node, accepted bool, applicable bool, err error) {
 	var ferr error
 	switch via {
 	case "direct":
@@ -164,7 +168,7 @@ func Feed(np datamodel.NodePrototype, events val.V, via string, prog []byte) (n 
 	}
 	if ferr != nil {
 		if os.Getenv("VERIF_STACK") != "" {
-			fmt.Printf("FEED-ERROR (%T via %s): %v\n", np, via, ferr)
+			fmt.Printf("FEED-ERROR (%s via %s): %v\n", npName, via, ferr)
 		}
 		if strings.HasPrefix(ferr.Error(), "PANIC") {
 			return nil, false, true, ferr
